@@ -25,7 +25,8 @@ class Contract:
     def __init__(self, qual, params=None, requires=(), ensures=(), raises=None, modifies=(), returns=None, let=None,
                  inline=False, spec=None, drops=(), props=(), name=None, exc_ensures=None, hints=(),
                  use_at_calls=True, expect_raise_paths=None, path_assumes=(), trusted=False, note=None,
-                 allow_other_exc=(), overrides=None, max_paths=400, timeout_s=None, kwargs_call=None):
+                 allow_other_exc=(), overrides=None, max_paths=400, timeout_s=None, kwargs_call=None, pure=False):
+        self.pure = pure
         self.qual = qual
         self.name = name or qual
         self.params = params or {}
@@ -351,14 +352,18 @@ class Engine:
                 raise Unsupported('havoc of container contents')
             else:
                 if builder is not None:
-                    o.fields[field] = builder(BCtx(p, tag=f'h{next(_hv)}_'), field)
+                    bc = BCtx(p, tag=f'h{next(_hv)}_')
+                    bc.eval_expr = lambda e, _env=env: self.eval_clause(it, e, _env)
+                    o.fields[field] = builder(bc, field)
                 else:
                     if field not in o.fields:
                         raise Unsupported(f'havoc of unset field {field} (give a builder)')
                     o.fields[field] = self.havoc_like(p, o.fields[field], field)
         res = None
         if c.returns is not None:
-            res = c.returns(BCtx(p, tag=f'r{next(_hv)}_'), 'result')
+            bc = BCtx(p, tag=f'r{next(_hv)}_')
+            bc.eval_expr = lambda e, _env=env: self.eval_clause(it, e, _env)
+            res = c.returns(bc, 'result')
         env.vars['result'] = res
         for nm, ex in c.let.items():
             env.vars[nm] = self.eval_clause(it, ex, env)
